@@ -95,6 +95,31 @@ def area_model(down, outlet, inlets):
     return res
 
 
+def holes(nr, nc, area, diagonal):
+    """Cells outside `area` that cannot reach the outside of the grid
+    through cells outside `area` (4-moves, or 8-moves when diagonal)."""
+    area = set(area)
+    moves = [(-1, 0), (1, 0), (0, -1), (0, 1)]
+    if diagonal:
+        moves += [(-1, -1), (-1, 1), (1, -1), (1, 1)]
+    # pad the grid with one ring of outside cells and flood from it
+    seen = set()
+    stack = [(r, k) for r in range(-1, nr + 1) for k in (-1, nc)] + \
+        [(r, k) for k in range(-1, nc + 1) for r in (-1, nr)]
+    seen.update(stack)
+    while stack:
+        r, k = stack.pop()
+        for dr, dk in moves:
+            r2, k2 = r + dr, k + dk
+            if -1 <= r2 <= nr and -1 <= k2 <= nc and (r2, k2) not in seen:
+                if 0 <= r2 < nr and 0 <= k2 < nc and r2 * nc + k2 in area:
+                    continue
+                seen.add((r2, k2))
+                stack.append((r2, k2))
+    return {r * nc + k for r in range(nr) for k in range(nc)
+            if r * nc + k not in area and (r, k) not in seen}
+
+
 def step_length(nc, a, b):
     r1, k1 = divmod(a, nc)
     r2, k2 = divmod(b, nc)
